@@ -235,6 +235,19 @@ class _MathShim:
 
 
 mathshim = _MathShim()
+
+
+class _FloatMeta(type):
+    """stand-in for the builtin `float` inside prtpy modules: under S2 (exact arithmetic) float(x) of a symbolic number is x itself;
+    everything else (concrete numbers, strings such as 'inf', isinstance tests) goes to the real float"""
+    def __instancecheck__(cls, x): return isinstance(x, _builtin_float)
+    def __call__(cls, x=0.0):
+        if isinstance(x, SymNum): return x
+        return _builtin_float(x)
+
+
+_builtin_float = float
+floatshim = _FloatMeta('float', (), {})
 _installed = False
 
 
@@ -251,6 +264,8 @@ def install():
                     setattr(mod, attr, me); n += 1
                 elif val is math:
                     setattr(mod, attr, mathshim); n += 1
+            if 'float' not in vars(mod) and hasattr(mod, '__file__'):
+                setattr(mod, 'float', floatshim)
     import prtpy.binners as B
     B.BinnerKeepingSums.BinsArray = ndarray
     _installed = True
